@@ -56,6 +56,9 @@ def _data(rng, shape, kind):
 
 
 # ----------------------------------------------------------------------------------------- source-axis masks
+_SL = {}
+
+
 def make_src(rng, tier, name=None):
     name = name or str(rng.choice(SRC_FUNCS))
     nd = int(rng.integers(1, 5))
@@ -68,7 +71,12 @@ def make_src(rng, tier, name=None):
         shape[src] = int(rng.integers(2, 5))
     kind = str(rng.choice(['random', 'random', 'integer', 'integer', 'silent', 'zero'], p=[.3, .2, .2, .1, .15, .05]))
     x = _data(rng, shape, kind)
-    if kind == 'silent' and sen is None and nd >= 2:        # some points silent in every source
+    _SL[name] = _SL.get(name, 0) + 1
+    if _SL[name] % 3 == 0 and kind in ('random', 'silent'):
+        # every mask, every run: a very quiet recording (amplitudes 1e-9 .. 1e-7, powers near the eps guards)
+        x = x / max(np.abs(x).max(), 1e-300) * 10.0 ** rng.uniform(-9, -7)
+        kind = kind + '/quiet'
+    if kind.startswith('silent') and sen is None and nd >= 2:        # some points silent in every source
         idx = [slice(None)] * nd
         other = [a for a in range(nd) if a != src][0]
         idx[other] = 0
